@@ -48,6 +48,12 @@ var c12Types = map[string]reflect.Type{
 	"hcx":  reflect.TypeOf((*hctx.Context)(nil)).Elem(),
 	"f64":  reflect.TypeOf(float64(0)),
 	"iptr": reflect.TypeOf((*int)(nil)),
+	// stage G (oracle_c12_kinds.go): pointer, struct, named and non-empty interface parameter types
+	"uptr": reflect.TypeOf((*c12gUser)(nil)),
+	"aptr": reflect.TypeOf((*c12gAdmin)(nil)),
+	"ustr": reflect.TypeOf(c12gUser{}),
+	"strg": reflect.TypeOf((*fmt.Stringer)(nil)).Elem(),
+	"nstr": reflect.TypeOf(c12gStr("")),
 }
 
 // c12CtxVal is a context.Context of the oracle's own (argument kind 'c'): assignable to context.Context and
@@ -152,7 +158,7 @@ func c12ParseSig(s string) (c12Sig, error) {
 		}
 	}
 	okTail, okRes := false, false
-	for _, t := range c12Tails {
+	for _, t := range append(append([]string{}, c12Tails...), c12gTails...) {
 		okTail = okTail || t == sig.tail
 	}
 	for _, r := range c12ResShapes {
@@ -188,9 +194,18 @@ func c12Val(v reflect.Value) string {
 		if v.Len() == 0 {
 			return v.Type().String() + ":<empty>"
 		}
+	case reflect.Func:
+		if v.IsNil() {
+			return v.Type().String() + ":<nil>"
+		}
+		return v.Type().String() + ":<func>"
 	case reflect.Ptr:
 		if v.IsNil() {
 			return v.Type().String() + ":<nil>"
+		}
+		switch v.Elem().Kind() {
+		case reflect.Struct, reflect.Int, reflect.String, reflect.Bool:
+			return fmt.Sprintf("%s:&%#v", v.Type(), v.Elem().Interface())
 		}
 		return v.Type().String() + ":<pointer>"
 	}
@@ -248,7 +263,7 @@ const c12ArgKinds = "isbnhl" // int, string, bool, nil, hash literal, []string v
 
 // c12ArgKindsExt: plus 'c', a context.Context variable, and 'f', a float literal (stage F and replay only;
 // stages A-C enumerate c12ArgKinds)
-const c12ArgKindsExt = c12ArgKinds + "cf"
+const c12ArgKindsExt = c12ArgKinds + "cf" + c12gVarKinds
 
 type c12Call struct {
 	args string // one letter of c12ArgKinds per argument
@@ -276,6 +291,9 @@ func c12ArgText(k byte, pos int) string {
 	case 'f':
 		return p + ".5"
 	}
+	if strings.IndexByte(c12gVarKinds, k) >= 0 {
+		return "g" + string(k) + p // a context variable (stage G)
+	}
 	return "?"
 }
 
@@ -297,10 +315,13 @@ func c12ArgValue(k byte, pos int) interface{} {
 	case 'f':
 		return float64(pos) + 0.5
 	}
-	return nil
+	return c12gArgValue(k, pos)
 }
 
 const c12Name = "recfn"
+
+// c12IsNilKind: the argument is nil itself - not a typed nil pointer / map / slice
+func c12IsNilKind(k byte) bool { return k == 'n' }
 
 func (c c12Call) template() string {
 	parts := []string{}
@@ -545,6 +566,9 @@ func (g *c12Gen) check(sig c12Sig, call c12Call) {
 			if call.args[i] == 'c' {
 				ctx.Set("gctx"+strconv.Itoa(i), c12ArgValue('c', i))
 			}
+			if strings.IndexByte(c12gVarKinds, call.args[i]) >= 0 {
+				ctx.Set(c12ArgText(call.args[i], i), c12ArgValue(call.args[i], i))
+			}
 		}
 		if call.wrap {
 			ctx.Set("tr", func(i int, v interface{}) interface{} {
@@ -656,7 +680,7 @@ func (g *c12Gen) check(sig c12Sig, call c12Call) {
 	// the call is valid: the helper must have run once with exactly these arguments
 	hasNilVariadic, hasNilFixed := false, false
 	for i := 0; i < len(call.args); i++ {
-		if call.args[i] == 'n' {
+		if c12IsNilKind(call.args[i]) {
 			if variadic && i >= len(kinds)-1 {
 				hasNilVariadic = true
 			} else {
@@ -784,7 +808,7 @@ func c12DiffSite(sig c12Sig, call c12Call, w c12Want, got []string) string {
 			}
 			return "auto-options-map-wrong"
 		}
-		isNil := call.args[i] == 'n'
+		isNil := c12IsNilKind(call.args[i])
 		isVar := variadic && i >= len(kinds)-1
 		switch {
 		case isNil && isVar:
@@ -877,6 +901,10 @@ func init() {
 			c12hReplay(cfg.Arg, rep)
 			return []*Report{rep}
 		}
+		if strings.HasPrefix(cfg.Arg, "mut=") {
+			c12mReplay(cfg.Arg, rep)
+			return []*Report{rep}
+		}
 		if strings.HasPrefix(cfg.Arg, "pos=") {
 			c12eReplay(cfg.Arg, rep)
 			return []*Report{rep}
@@ -910,11 +938,13 @@ func init() {
 			"Every case reaches evalCallExpression's Go-function branch; about 9%% (quick) / 5%% (thorough) of the pairs are valid calls (tag want:invoked), about 1%% are left unchecked because the statement is silent, the rest must be rejected. non-trivial = signature or call has at least one parameter/argument; distinct by case text.",
 			len(fixed), fixedFull, map[bool]string{true: "; plus all 27 lists of length 3 over int, string, interface{}", false: ""}[cfg.Thorough()],
 			len(argSeqs), maxArgs, map[bool]string{true: " (C) random pairs from the larger space: fixed lists of length 3 over all 6 types x argument lists of length 0..5.", false: ""}[cfg.Thorough()])
-		rep.Rule += c12hRule + c12eRule + c12fRule
+		rep.Rule += c12hRule + c12eRule + c12fRule + c12gRuleText(cfg) + c12mRule
 		rep.Exhaustive = true
 		rep.Notes = append(rep.Notes, c12hNotes...)
 		rep.Notes = append(rep.Notes, c12eNotes...)
 		rep.Notes = append(rep.Notes, c12fNotes...)
+		rep.Notes = append(rep.Notes, c12gNotes...)
+		rep.Notes = append(rep.Notes, c12mNotes...)
 		rep.Notes = append(rep.Notes,
 			"Unchecked or only partially checked (statement silent about the outcome), tagged unchecked:* / partial:*: fewer arguments than fixed parameters when the missing parameter is not a trailing options map / helper context (non-variadic: more missing than the auto-suppliable suffix; variadic: fewer arguments than fixed parameters). Panics there are C04's business.",
 			"An options map is recognised as map[string]interface{} in last position, or in second-to-last position before a helper context. nil / empty maps and slices are not distinguished (the statement says 'zero value' for nil and 'supplied' for the options map).",
@@ -975,6 +1005,10 @@ func init() {
 		}
 		// (F) parameters without an argument; more parameter types (oracle_c12_omit.go)
 		c12fStage(cfg, g)
+		// (G) argument values of every Go kind: typed nil pointers, structs, named types ... (oracle_c12_kinds.go)
+		c12gStage(cfg, g)
+		// (H) histories of calls whose helpers write into what they receive (oracle_c12_mut.go)
+		c12mStage(cfg, rep)
 		// (D) call histories and nested calls (oracle_c12_hist.go)
 		c12hStage(cfg, rep)
 		// (E) result handling in every position of a program (oracle_c12_pos.go)
